@@ -132,6 +132,14 @@ type supervisor struct {
 	// the CURRENT generation from one of an EARLIER generation that was still queued when the reconnect
 	// committed — the latter must not take the new generation down.
 	generation atomic.Uint64
+
+	// dwell is the NOT-SELECTED dwell sequence number: it advances on EVERY entry into NotSelected
+	// (CommitConnected, CommitSelectLost, and step()'s own store of NotSelected for an event that was not
+	// pre-committed). T7 times ONE dwell, and its expiry is reported asynchronously (injectT7Timeout tags
+	// the evT7Timeout with the dwell current at the expiry), so step() can tell the expiry of the CURRENT
+	// dwell from one that was still queued while the session was selected and later deselected (or
+	// reconnected) into a new dwell with a freshly armed T7 — the latter must not disconnect it.
+	dwell atomic.Uint64
 }
 
 // newSupervisorWithEventsCap builds a supervisor with an explicit events-queue capacity
@@ -234,6 +242,7 @@ func (s *supervisor) CommitConnected() (committed bool) {
 	// generation together with the old generation number — under which a still-queued evDisconnect of
 	// the previous generation would pass for a current one.
 	s.generation.Add(1)
+	s.dwell.Add(1) // TCP-up enters NotSelected: a new dwell begins with the generation (same protocol)
 
 	if s.state.CompareAndSwap(uint32(NotConnectedState), uint32(NotSelectedState)) {
 		s.inject(evTCPUp)
@@ -244,6 +253,7 @@ func (s *supervisor) CommitConnected() (committed bool) {
 	// No commit, no new generation. (The CAS fails only if TCPUp is driven twice for one generation,
 	// which the transports never do — see above.)
 	s.generation.Add(^uint64(0))
+	s.dwell.Add(^uint64(0))
 
 	return false
 }
@@ -255,6 +265,15 @@ func (s *supervisor) CommitConnected() (committed bool) {
 // step() ignores it instead of disconnecting the new generation.
 func (s *supervisor) injectDisconnect() {
 	s.inject(evDisconnect.withTag(s.generation.Load()))
+}
+
+// injectT7Timeout reports the expiry of the T7 NOT-SELECTED dwell timer (T7Expired): it enqueues an
+// evT7Timeout tagged with the dwell in which the timer expired. If run() is late and the session is
+// selected and later back in NotSelected (a Deselect, or a drop and reconnect) by the time the event is
+// processed, that is a NEW dwell with its own T7, and step() ignores the old expiry instead of
+// disconnecting a session that reached Selected after the timer was armed.
+func (s *supervisor) injectT7Timeout() {
+	s.inject(evT7Timeout.withTag(s.dwell.Load()))
 }
 
 // CommitSelected performs the H2 §7.D synchronous responder commit: a guarded CAS
@@ -288,6 +307,10 @@ func (s *supervisor) CommitSelectLost() (committed bool) {
 	// Announce the pending evSelectLost BEFORE the CAS so step() can never observe the committed
 	// NotSelected without also observing that a select-lost event is on its way.
 	s.deselectPending.Add(1)
+	// Likewise open the new NOT-SELECTED dwell BEFORE the CAS: step() reads the state first and the dwell
+	// second, so it never pairs the committed NotSelected with the previous dwell's number — under which
+	// a still-queued T7 expiry of that earlier dwell would pass for a current one.
+	s.dwell.Add(1)
 
 	if s.state.CompareAndSwap(uint32(SelectedState), uint32(NotSelectedState)) {
 		s.inject(evSelectLost)
@@ -296,6 +319,7 @@ func (s *supervisor) CommitSelectLost() (committed bool) {
 	}
 
 	s.deselectPending.Add(-1)
+	s.dwell.Add(^uint64(0)) // no commit, no new dwell
 
 	return false
 }
@@ -328,7 +352,8 @@ func (s *supervisor) run() {
 // state is observed Selected (a pipelined re-Select re-committed after CommitSelectLost's CAS) — in
 // both cases step early-returns and leaves the committed Selected session intact rather than tearing
 // it down / flapping it (§9.2.2). An evDisconnect tagged with an EARLIER TCP generation than the
-// current one (injectDisconnect / CommitConnected) is ignored altogether. Regardless of the
+// current one (injectDisconnect / CommitConnected) is ignored altogether, and so is an evT7Timeout
+// tagged with an EARLIER NOT-SELECTED dwell than the current one (injectT7Timeout). Regardless of the
 // transition, evClose additionally and unconditionally
 // initiates teardown of the PINNED epoch (idempotent closeOnce) so a Close while already
 // NotConnected — where no transition fires — still initiates teardown and Close's e.wait()
@@ -384,6 +409,14 @@ func (s *supervisor) step(in fsmEvent) {
 		return
 	}
 
+	// Likewise a T7 expiry reported in an EARLIER NOT-SELECTED dwell is stale: the session has been
+	// Selected (or reconnected) since, and the NotSelected it is in now is a new dwell whose own T7 has
+	// not expired. Without this, the table's no-op-from-Selected clause only protects the session while
+	// it STAYS Selected. The dwell is read AFTER the state (see CommitSelectLost / CommitConnected).
+	if ev == evT7Timeout && tagged && seq < s.dwell.Load() {
+		return
+	}
+
 	if next, ok := transition(cur, ev); ok {
 		if next != cur {
 			// evT7Timeout is the ONLY transition-store that can race a concurrent SYNCHRONOUS
@@ -407,6 +440,10 @@ func (s *supervisor) step(in fsmEvent) {
 				// would undo that newer commit, so only the deduped reaction below runs (handlers still
 				// observe the brief Selected dwell, in order) and the state is left as committed.
 			default:
+				if next == NotSelectedState {
+					s.dwell.Add(1) // an entry into NotSelected that no commit pre-stored: a new dwell all the same
+				}
+
 				s.state.Store(uint32(next))
 			}
 		}
